@@ -56,7 +56,7 @@ class Call(object):
 
 class IterSnap(object):
     __slots__ = ('seq', 'run', 'it', 'nf', 'nx', 'rho', 'delta', 'npt', 'kopt', 'objopt', 'objsave', 'final', 'nrestarts',
-                 'rhoend_ctrl')
+                 'rhoend_ctrl', 'interp_ok')
 
 
 class DykCall(object):
@@ -524,8 +524,15 @@ class Instrument(object):
         H._iter_hooks = iter_hooks
 
         def interp(self_, *a, **kw):
+            n_before = len(H.iters)
             on_iteration(H, self_, iter_hooks)
-            return orig_interp(self_, *a, **kw)
+            out = orig_interp(self_, *a, **kw)
+            if len(H.iters) == n_before + 1:
+                try:
+                    H.iters[-1].interp_ok = bool(out[0])
+                except Exception:
+                    pass
+            return out
         self._patch(dm.Model, 'interpolate_mini_models_svd', interp)
 
         orig_shift = dm.Model.__dict__['shift_base']
@@ -577,6 +584,7 @@ def on_iteration(H, model, hooks):
     s.nrestarts = len(H.restarts)
     s.rhoend_ctrl = float(ctrl.rhoend)
     s.final = None
+    s.interp_ok = None
     H.iters.append(s)
     # deterministic liveness bound (i): no-progress fixed point
     state = (s.nf, s.nx, s.nrestarts, s.npt, s.kopt, s.rho, s.delta, model.xbase.tobytes())
